@@ -1493,6 +1493,65 @@ pos("C05", "readwait-accepts-oversized-request-stalls", "ReadWait no longer refu
     [(BUF, "func (bf *buffer) ReadWait(n int) ([]byte, error) {\n	if int64(n) > bf.size {\n		return nil, bufio.ErrBufferFull\n	}\n", "func (bf *buffer) ReadWait(n int) ([]byte, error) {\n")],
     ["C05/P5-order/ReadWait:rejects-packet-larger-than-ring"])
 
+# ---------------------------------------------------------------- rules added after the fourth seeded round
+pos("C08", "rinsert-keeps-slices-of-the-publish", "the retained copy is built with setters from the topic and payload slices of the PUBLISH being retained (views of the publisher's ring)",
+    [(MT, "		buf := make([]byte, msg.Len())\n\n		if _, err := msg.Encode(buf); err != nil {\n			return err\n		}\n\n		rmsg := message.NewPublishMessage()\n\n		if _, err := rmsg.Decode(buf); err != nil {\n			return err\n		}\n",
+          "		rmsg := message.NewPublishMessage()\n\n		if err := rmsg.SetTopic(msg.Topic()); err != nil {\n			return err\n		}\n\n		rmsg.SetPayload(msg.Payload())\n		rmsg.SetQoS(msg.QoS())\n		rmsg.SetRetain(true)\n\n		buf := make([]byte, rmsg.Len())\n\n		if _, err := rmsg.Encode(buf); err != nil {\n			return err\n		}\n")],
+    ["C08/G6-fresh-copy-on-retention/(*topics.rnode).rinsert:retained-message-shares-no-bytes-with-the-publish"])
+pos("C11", "connect-decode-wraps-the-refusal-code", "the CONNECT decoder wraps the error of its body decoder: the accept function's type assertion no longer finds the CONNACK code",
+    [(CONN, "	if n, err = m.decodeMessage(src[total:]); err != nil {\n		return total + n, err\n	}\n	total += n\n\n	m.dirty = false", "	if n, err = m.decodeMessage(src[total:]); err != nil {\n		return total + n, fmt.Errorf(\"connect/Decode: at offset %d: %w\", total, err)\n	}\n	total += n\n\n	m.dirty = false")],
+    ["C11/P6-on-all-exits/(*message.ConnectMessage).Decode:error-of-decodeMessage-returned-unchanged"])
+neg("C11", "neg-connect-decode-error-local", "the CONNECT decoder returns the body decoder's error through a local",
+    [(CONN, "	if n, err = m.decodeMessage(src[total:]); err != nil {\n		return total + n, err\n	}\n	total += n\n\n	m.dirty = false", "	n, derr := m.decodeMessage(src[total:])\n	total += n\n	if derr != nil {\n		return total, derr\n	}\n\n	m.dirty = false")])
+for _p in ("C18", "C08"):
+    pos(_p, "publish-renumbers-shared-retained-message", "the server-side publish gives the message a connection-scoped identifier in place - also when it is a retained message shared by all subscribers",
+        [(SVC, "func (svc *service) publish(msg *message.PublishMessage, onComplete OnCompleteFunc) error {\n	_, err := svc.writeMessage(msg)", "func (svc *service) publish(msg *message.PublishMessage, onComplete OnCompleteFunc) error {\n	if !svc.client && msg.QoS() != message.QosAtMostOnce {\n		msg.SetPacketID(uint16(svc.id%65535) + 1)\n	}\n\n	_, err := svc.writeMessage(msg)")],
+        [_p + "/G7-clone-before-mutate/processSubscribe:publish-mutates-retained-argument"])
+for _p in ("C16", "C10"):
+    pos(_p, "anonymous-client-keeps-empty-identifier", "a CONNECT without client identifier is no longer given a generated one: the store makes up a key teardown never deletes",
+        [(SRV, "		req.SetClientID([]byte(fmt.Sprintf(\"internalclient%d\", svc.id)))\n		req.SetCleanSession(true)", "		_ = fmt.Sprintf\n		req.SetCleanSession(true)")],
+        [_p + "/P8-guard-contract/getSession:empty-client-id-gets-an-identifier"])
+pos("C01", "server-publish-shares-its-result-lists", "Server.Publish keeps its subscriber lists in fields of the Server, locking only the lookup",
+    [(SRV, "	var subs []interface{}\n	var qoss []byte\n\n	if err := svr.topicsMgr.Subscribers(msg.Topic(), msg.QoS(), &subs, &qoss); err != nil {\n		return err\n	}", "	svr.mu.Lock()\n	err := svr.topicsMgr.Subscribers(msg.Topic(), msg.QoS(), &svr.psubs, &svr.pqoss)\n	subs, qoss := svr.psubs, svr.pqoss\n	svr.mu.Unlock()\n	if err != nil {\n		return err\n	}"),
+     (SRV, "	// A indicator on whether this server has already checked configuration\n	configOnce sync.Once\n", "	// A indicator on whether this server has already checked configuration\n	configOnce sync.Once\n\n	psubs []interface{}\n	pqoss []byte\n")],
+    ["C01/P9-who-may/Publish:fan-out:result-lists-private"])
+pos("C01", "processor-commits-before-fan-out", "the bytes of a peeked PUBLISH are released before it has been fanned out",
+    [(PROC, """		err = p.processIncoming(msg)
+		if err != nil {
+			if err != errDisconnect {
+				log.Warningf("(%s) Error processing %s: %v", p.cid(), msg.Name(), err)
+			} else {
+				return
+			}
+		}
+
+		// 7. We should commit the bytes in the buffer so we can move on
+		_, err = p.in.ReadCommit(total)
+		if err != nil {
+			if !isEOF(err) {
+				log.Errorf("(%s) Error committing %d read bytes: %v", p.cid(), total, err)
+			}
+			return
+		}
+""", """		_, err = p.in.ReadCommit(total)
+		if err != nil {
+			if !isEOF(err) {
+				log.Errorf("(%s) Error committing %d read bytes: %v", p.cid(), total, err)
+			}
+			return
+		}
+
+		err = p.processIncoming(msg)
+		if err != nil {
+			if err != errDisconnect {
+				log.Warningf("(%s) Error processing %s: %v", p.cid(), msg.Name(), err)
+			} else {
+				return
+			}
+		}
+""")],
+    ["C01/P5-order/processor:commit-after-use-of-peeked-bytes"])
+
 
 def main():
     os.makedirs(OUT, exist_ok=True)
